@@ -380,6 +380,154 @@ def native_time_order_witness(rec, blocks):
     return None
 
 
+def nested_time_orders(rec, inner_blocks, extra):
+    """a composed filter that was re-ordered with sort_times, used as a sub-filter of another composed filter which is re-ordered again:
+    every leaf filter still receives its own time points, sensitivities return in the outer input order"""
+    chi_sym = loader.load_shadow()
+    tensor.MASKED.clear()
+    q = 'chi._population_filters.ComposedPopulationFilter.'
+    ni = sum(inner_blocks)
+    ntot = ni + extra
+    offs_i = [sum(inner_blocks[:k]) for k in range(len(inner_blocks))]
+    nleaf = len(inner_blocks) + 1
+
+    class StubFilter(chi_sym.PopulationFilter):
+        def __init__(self, k, nt):
+            self.k = k
+            self._n_times = nt
+            self._n_observables = S(NO)
+            self.calls = []
+
+        def n_times(self):
+            return self._n_times
+
+        def n_observables(self):
+            return self._n_observables
+
+        def compute_log_likelihood(self, simulated_obs):
+            self.calls.append(simulated_obs)
+            return S(sp.Symbol('L%d' % self.k, real=True))
+
+        def compute_sensitivities(self, simulated_obs):
+            self.calls.append(simulated_obs)
+            base = sp.IndexedBase('SENS%d' % self.k, real=True)
+            return S(sp.Symbol('L%d' % self.k, real=True)), T((NS, NO, self._n_times), lambda ix: base[ix[0], ix[1], ix[2]])
+    sim = T((NS, NO, ntot), lambda ix: X[ix[0], ix[1], ix[2]])
+    base = [NS >= 2, NO >= 1]
+    tag = 'Composed[Composed[times=%s]+%d]' % ('+'.join(str(b) for b in inner_blocks), extra)
+
+    def go():
+        n_orders = 0
+        for order_i in itertools.permutations(range(ni)):
+            for order_o in itertools.permutations(range(ntot)):
+                n_orders += 1
+                stubs = [StubFilter(k, nt) for k, nt in enumerate(inner_blocks)] + [StubFilter(len(inner_blocks), extra)]
+                holder = {}
+
+                def run():
+                    inner = chi_sym.ComposedPopulationFilter(stubs[:-1])
+                    inner.sort_times(np.array(order_i))
+                    f = chi_sym.ComposedPopulationFilter([inner, stubs[-1]])
+                    f.sort_times(np.array(order_o))
+                    holder['ll'] = f.compute_log_likelihood(sim)
+                    holder['calls_ll'] = [s.calls[-1] if s.calls else None for s in stubs]
+                    holder['se'] = f.compute_sensitivities(sim)
+                    holder['calls_se'] = [s.calls[-1] if s.calls else None for s in stubs]
+                    return True
+                paths = explore(run, base)
+                if [r[0] for _, r, _ in paths] != ['ret']:
+                    return ('undecided', 'engine', 'orders %s / %s: %s' % (order_i, order_o, [(r[0], str(r[1])[:100]) for _, r, _ in paths]))
+                inv_i = [list(order_i).index(a) for a in range(ni)]
+                inv_o = [list(order_o).index(a) for a in range(ntot)]
+                lab = 'inner order %s, outer order %s' % (order_i, order_o)
+                want_ll = sum(sp.Symbol('L%d' % k, real=True) for k in range(nleaf))
+                if sp.expand(sym.w(holder['ll']) - want_ll) != 0 or sp.expand(sym.w(holder['se'][0]) - want_ll) != 0:
+                    return ('refuted', 'postcondition', '%s: score is not the sum of the leaf scores' % lab)
+                for which in ('calls_ll', 'calls_se'):
+                    for k, call in enumerate(holder[which]):
+                        nt = stubs[k]._n_times
+                        if not (isinstance(call, T) and call._shape[2] == nt):
+                            return ('refuted', 'call-site precondition', '%s: leaf filter %d receives shape %s' % (lab, k, getattr(call, '_shape', None)))
+                        for tau in range(nt):
+                            pos = inv_o[inv_i[offs_i[k] + tau]] if k < len(inner_blocks) else inv_o[ni + tau]
+                            got, want = call.el(s_, r_, tau), X[s_, r_, pos]
+                            if sp.expand(got - want) != 0:
+                                return ('refuted', 'call-site precondition', '%s: leaf filter %d, its time point %d receives %s, expected %s' % (lab, k, tau, got, want))
+                sens = holder['se'][1]
+                if not (isinstance(sens, T) and sens._shape[2] == ntot):
+                    return ('refuted', 'postcondition', '%s: sensitivities shape %s' % (lab, getattr(sens, '_shape', None)))
+                for pnew in range(ntot):
+                    qq = order_o[pnew]
+                    if qq < ni:
+                        a = order_i[qq]
+                        k = max(kk for kk in range(len(inner_blocks)) if offs_i[kk] <= a)
+                        want = sp.IndexedBase('SENS%d' % k, real=True)[s_, r_, a - offs_i[k]]
+                    else:
+                        want = sp.IndexedBase('SENS%d' % len(inner_blocks), real=True)[s_, r_, qq - ni]
+                    got = sens.el(s_, r_, pnew)
+                    if sp.expand(got - want) != 0:
+                        return ('refuted', 'postcondition', '%s: sensitivity at input time position %d is %s, expected %s' % (lab, pnew, got, want))
+        return ('discharged', 'symbolic execution, structural comparison', '%d (inner order, outer order) pairs: leaf filters receive their own time points, sensitivities return in input order' % n_orders)
+
+    def backed():
+        r = go()
+        if r[0] != 'refuted':
+            return r
+        wit = native_nested_witness(rec, inner_blocks, extra)
+        if wit is None:
+            return ('undecided', r[1], r[2] + ' (no native counterexample found)')
+        return ('refuted', r[1] + '; native replay', r[2] + ' | ' + wit['what'], wit)
+    rec.run(tag + '/time.order', [q + 'compute_log_likelihood', q + 'compute_sensitivities', q + 'sort_times', q + '__init__'], 'Pκ', backed)
+
+
+def native_nested_witness(rec, inner_blocks, extra):
+    """real filters (Gaussian and log-normal leaves): nested, twice re-ordered composition vs. the sum of the leaves evaluated on their own time points"""
+    import chi as real
+    rng = np.random.default_rng(rec.seed)
+    ni = sum(inner_blocks)
+    ntot = ni + extra
+    for order_i in itertools.permutations(range(ni)):
+        for order_o in itertools.permutations(range(ntot)):
+            data_i = rng.uniform(0.5, 2.5, (3, 1, ni))
+            data_e = rng.uniform(0.5, 2.5, (3, 1, extra))
+            leaves, off = [], 0
+            for kk, b in enumerate(inner_blocks):
+                leaves.append((real.GaussianFilter if kk % 2 == 0 else real.LogNormalFilter)(data_i[:, :, off:off + b]))
+                off += b
+            last = real.GaussianFilter(data_e)
+            try:
+                inner = real.ComposedPopulationFilter(leaves)
+                inner.sort_times(np.array(order_i))
+                comp = real.ComposedPopulationFilter([inner, last])
+                comp.sort_times(np.array(order_o))
+                sim = rng.uniform(0.5, 2.5, (4, 1, ntot))
+                v1 = float(comp.compute_log_likelihood(sim))
+                s1, g1 = comp.compute_sensitivities(sim)
+            except Exception as ex:
+                return {'what': 'inner order %s, outer order %s: native raises %r' % (order_i, order_o, ex), 'expected': 'values', 'observed': repr(ex)}
+            inv_i = [list(order_i).index(a) for a in range(ni)]
+            inv_o = [list(order_o).index(a) for a in range(ntot)]
+            want, gwant, off = 0.0, np.zeros_like(sim), 0
+            for kk, b in enumerate(inner_blocks):
+                pos = [inv_o[inv_i[off + tau]] for tau in range(b)]
+                fresh = (real.GaussianFilter if kk % 2 == 0 else real.LogNormalFilter)(data_i[:, :, off:off + b])
+                sc, gg = fresh.compute_sensitivities(sim[:, :, pos])
+                want += float(sc)
+                gwant[:, :, pos] = gg
+                off += b
+            pos = [inv_o[ni + tau] for tau in range(extra)]
+            sc, gg = real.GaussianFilter(data_e).compute_sensitivities(sim[:, :, pos])
+            want += float(sc)
+            gwant[:, :, pos] = gg
+            if not (np.isclose(v1, want) and np.isclose(float(s1), want)):
+                return {'what': 'inner order %s, outer order %s: nested composed filter gives %r / %r, the leaf filters on their own time points give %r' % (order_i, order_o, v1, float(s1), want),
+                        'inner order': list(order_i), 'outer order': list(order_o), 'expected': want, 'observed': v1}
+            if not np.allclose(g1, gwant):
+                return {'what': 'inner order %s, outer order %s: sensitivities differ from those of the leaf filters in input order (max abs diff %.3g)' % (order_i, order_o, float(np.max(np.abs(g1 - gwant)))),
+                        'expected': gwant.tolist(), 'observed': np.asarray(g1).tolist()}
+    return None
+
+
 def plain_sort(rec):
     chi_sym = loader.load_shadow()
     tensor.MASKED.clear()
@@ -541,6 +689,12 @@ def _more_tasks():
                 return
             time_orders(rec, blocks)
         out.append(('time-orders:%s' % '+'.join(map(str, blocks)), run))
+    for ib, ex in [((1, 1), 1), ((2, 1), 1), ((1, 1), 2)]:
+        def run(rec, ib=ib, ex=ex):
+            if sum(ib) + ex == 4 and rec.tier == 'quick':
+                return
+            nested_time_orders(rec, ib, ex)
+        out.append(('nested-time-orders:%s|%d' % ('+'.join(map(str, ib)), ex), run))
     return out
 
 
